@@ -156,13 +156,15 @@ def allowed_leaf_kinds(ens):
 
 @st.composite
 def scenario(draw, ensembles=ENSEMBLES, calc_styles=("caching",), constraints=True, extra_arrays=True, logger=False,
-             max_entries=3, exclude=(), default_labels=False, min_atoms=2, max_atoms=7, alias=False):
+             max_entries=3, exclude=(), default_labels=False, min_atoms=2, max_atoms=7, alias=False, energy_constraints=False):
     ens = draw(st.sampled_from(list(ensembles)))
     cons = ()
     if constraints:
         cons = ("FixAtoms",) if ens == "GrandCanonical" else ("FixAtoms", "FixCom")
         if ens == "GrandCanonical" and "fixatoms-deletion" in exclude:
             cons = ()
+        if energy_constraints and ens != "GrandCanonical":
+            cons = cons + ("Hookean",)
     calc_style = draw(st.sampled_from(list(calc_styles)))
     adesc = draw(S.atoms_desc(min_atoms=min_atoms, max_atoms=max_atoms, extra_arrays=extra_arrays, constraints=cons,
                               species=["Cu", "H", "O"] if calc_style == "emt" else None, separated=calc_style in ("emt", "lj"),
@@ -267,6 +269,7 @@ def build_simulation(scn, logfile=None, criteria="scripted", extra_kw=None):
             template = Atoms(sp["symbols"], positions=sp["positions"])
             if "momenta" in sp:
                 template.set_momenta(sp["momenta"])
+            template_before = (S.snapshot_atoms(template), template.positions.tobytes())
             mc = gcmc.GrandCanonical(atoms, exchange_atoms=template, temperature=T, chemical_potential=scn.get("mu", 0.0),
                                      number_of_exchange_particles=scn.get("n_exchange", 0), **kw)
         cache = {}
@@ -285,7 +288,10 @@ def build_simulation(scn, logfile=None, criteria="scripted", extra_kw=None):
             first = list(mc.moves)[scn["alias_of"]]
             mc.add_move(mc.moves[first].move, criteria=cr, name=(scn["names"][len(scn["entries"])] if scn.get("names") else f"e{len(scn['entries'])}"))
             crits.append(cr)
-    return mc, atoms, {"criteria": crits, "calc_params": params}
+    info = {"criteria": crits, "calc_params": params}
+    if ens == "GrandCanonical":
+        info["template"], info["template_before"] = template, template_before
+    return mc, atoms, info
 
 
 # ------------------------------------------------------------------ the machine
